@@ -2736,6 +2736,9 @@ impl SctpInner {
                     .swap(DataChannelState::Closed as usize, Ordering::SeqCst);
                 if old_state != DataChannelState::Closed as usize {
                     dc.send_event(DataChannelEvent::Close);
+                    // ... and the event stream ends behind it: the sweeps of close()
+                    // and of the cleanup guard skip a channel that is Closed already.
+                    dc.close_channel();
                 }
             }
         }
